@@ -263,7 +263,6 @@ package wire
 //@   modifies b[*]
 //@ func parseConnectionCloseFrame
 //@   props C08
-//@   arith bv
 //@   ensures [consumed] implies(result2 == nil, result0 != nil && 2 <= result1 && result1 <= len(b))
 //@   ensures [on-error] implies(result2 != nil, result0 == nil && result1 == 0)
 //@   modifies nothing
